@@ -47,6 +47,32 @@ MUTANTS = [
     ("visited_on_pop", "execution/planning/planner.py", "                if lt.task.identifier in visited:\n", "                if False:\n", ["C02"]),
     ("again_not_propagated", "execution/planning/planner.py", "if not run_again and not lt.task.should_run(self._ctx, at_least_commit):",
      "if not (run_again and lt is root) and not lt.task.should_run(self._ctx, at_least_commit):", ["C02"]),
+    ("record_before_rc_check", "execution/ops/run_task_executable.py",
+     "        assert handle.returncode is not None\n        if handle.returncode != 0:",
+     "        assert handle.returncode is not None\n        if self._version_to_record is not None:\n            ctx.version_index.insert_output_version(self._identifier, self._version_to_record)\n            ctx.version_index.commit_changes()\n            self._version_to_record = None\n        if handle.returncode != 0:", ["C06"]),
+    ("restore_commit_first", "cli/restore.py", "        # Copy over all archived task outputs\n",
+     "        ctx.version_index.commit_changes()\n        # Copy over all archived task outputs\n", ["C12", "C06"]),
+    ("restore_no_rollback", "cli/restore.py", "        ctx.version_index.rollback_changes()\n        raise\n", "        ctx.version_index.commit_changes()\n        raise\n", ["C12"]),
+    ("restore_overwrite", "cli/restore.py", "shutil.copytree(src_task_path, dest_task_path, symlinks=True)",
+     "shutil.copytree(src_task_path, dest_task_path, symlinks=True, dirs_exist_ok=True)", ["C12"]),
+    ("restore_stale_staging", "cli/restore.py", "        shutil.rmtree(staging_path, ignore_errors=True)\n        staging_path.mkdir(exist_ok=True)", "        staging_path.mkdir(exist_ok=True)", ["C12"]),
+    ("gc_name_only", "cli/gc.py", "            if (task_identifier, timestamp) not in all_versions:",
+     "            if (task_name, timestamp) not in {(i.name, t) for i, t in all_versions}:", ["C13"]),
+    ("gc_descends_into_tasks", "cli/gc.py", "                if _REGULAR_TASK_REGEX.match(inner.name) is None:", "                if True:", ["C13"]),
+    ("gc_dry_run_deletes", "cli/gc.py", "        if args.dry_run:\n", "        if args.dry_run and args.verbose:\n", ["C13"]),
+    ("gc_follows_symlinks", "cli/gc.py", "            if not inner.is_dir() or inner.is_symlink():", "            if not inner.is_dir():", ["C13"]),
+    ("ts_no_bump_on_equal", "execution/version_index.py", "        if timestamp == self._last_timestamp:\n            timestamp += 1\n        elif", "        if", ["C08"]),
+    ("ts_seed_zero", "execution/version_index.py", "                    result[0] if result is not None and result[0] is not None else 0", "                    0", ["C08"]),
+    ("reuse_existing_dir", "task_types/run.py", "            if output_path is None or not output_path.exists():\n                break", "            break", ["C08"]),
+    ("latest_picks_min", "execution/version_index_queries.py", "    SELECT task_identifier, MAX(timestamp) AS timestamp", "    SELECT task_identifier, MIN(timestamp) AS timestamp", ["C11"]),
+    ("archive_closure_all_types", "cli/archive.py", "        if not task.archivable:\n            return\n", "", []),
+    ("traverse_revisit", "task_types/base.py", "            if curr_identifier in visited:\n", "            if False:\n", ["C11"]),
+    ("bulk_load_drops_dirty", "execution/version_index.py", "        cursor.executemany(q.insert_new_version, rows)", "        cursor.executemany(q.insert_new_version, [(r[0], r[1], r[2], 0) for r in rows])", ["C11"]),
+    ("restore_follow_symlinks", "cli/restore.py", "symlinks=True)", "symlinks=False)", ["C11"]),
+    ("deps_paths_dot", "lib/path.py", "        if len(path) > 0\n", "", ["C07"]),
+    ("cwd_project_root", "task_types/base.py", "        return pathlib.Path(ctx.project_root, self._identifier.path)", "        return pathlib.Path(ctx.project_root)", ["C07"]),
+    ("options_before_args", "execution/ops/run_task_executable.py", "[run, self._args.serialize_cmdline(), self._options.serialize_cmdline()]", "[run, self._options.serialize_cmdline(), self._args.serialize_cmdline()]", ["C07"]),
+    ("deps_reversed", "task_types/base.py", "        for dep_identifier in self.deps:\n            path =", "        for dep_identifier in reversed(self.deps):\n            path =", ["C07"]),
     ("num_tasks_per_dequeue", "execution/planning/planner.py", "                num_tasks_to_run += 1\n", "                num_tasks_to_run += 1 + len(lt.deps) * 0 + (1 if isinstance(lt.task, Group) else 0)\n", ["C02"]),
 ]
 
@@ -55,7 +81,53 @@ def run(cmd, **kw):
     return subprocess.run(cmd, shell=True, capture_output=True, text=True, **kw)
 
 
+def run_on_copy(name, rel, old, new, props):
+    """Apply the mutant to a scratch copy of the sources and run the checks against it (VERIF_SUBJECT_SRC)."""
+    import shutil
+    base = "/dev/shm/cvmut_%s" % name
+    shutil.rmtree(base, ignore_errors=True)
+    shutil.copytree(os.path.join(REPO, "src"), os.path.join(base, "src"), ignore=shutil.ignore_patterns("__pycache__"))
+    path = os.path.join(base, "src/conductor", rel)
+    src = open(path).read()
+    out = []
+    try:
+        if src.count(old) < 1:
+            return [(name, "-", None, "pattern not found")]
+        open(path, "w").write(src.replace(old, new, 1))
+        if run("/venv/bin/python -m py_compile %s" % path).returncode != 0:
+            return [(name, "-", None, "does not compile")]
+        for p in props:
+            t0 = time.time()
+            r = run("cd /verif && VERIF_SUBJECT_SRC=%s/src timeout 1200 ./check %s --tier quick" % (base, p))
+            caught = r.returncode == 1 and "VIOLATION property=%s" % p in r.stdout
+            first = [l for l in r.stdout.splitlines() if l.strip().startswith("clause=")][:1]
+            out.append((name, p, caught, "rc=%d %.0fs %s %s" % (r.returncode, time.time() - t0,
+                                                              first[0].strip()[:140] if first else "",
+                                                              r.stderr[-300:] if r.returncode == 2 else "")))
+    finally:
+        shutil.rmtree(base, ignore_errors=True)
+    return out
+
+
 def main():
+    if "--copy" in sys.argv:
+        args = [a for a in sys.argv[1:] if not a.startswith("--")]
+        props_override = None
+        for a in sys.argv[1:]:
+            if a.startswith("--props="):
+                props_override = a.split("=", 1)[1].split(",")
+        sel = [m for m in MUTANTS if not args or any(a in m[0] for a in args)]
+        from concurrent.futures import ThreadPoolExecutor
+        with ThreadPoolExecutor(max_workers=3) as ex:
+            futs = [ex.submit(run_on_copy, m[0], m[1], m[2], m[3], props_override or m[4]) for m in sel]
+            missed = 0
+            for f in futs:
+                for name, p, caught, info in f.result():
+                    print("MUTANT %-30s %s -> %s %s" % (name, p, "CAUGHT" if caught else "MISSED", info))
+                    sys.stdout.flush()
+                    missed += 0 if caught else 1
+        print("missed: %d" % missed)
+        return 0
     args = [a for a in sys.argv[1:] if not a.startswith("--")]
     props_override = None
     for a in sys.argv[1:]:
